@@ -400,6 +400,11 @@ class CookieJar(AbstractCookieJar):
                 else:
                     cookie["expires"] = ""
 
+            if not cookie["max-age"] and not cookie["expires"]:
+                # A session cookie replaces the stored one, lifetime included:
+                # forget the deadline of the cookie it replaces.
+                self._expirations.pop((domain, path, name), None)
+
             key = (domain, path)
             if self._cookies[key].get(name) != cookie:
                 # Don't blow away the cache if the same
